@@ -112,7 +112,26 @@ class Checker:
         self.notes.append(text)
 
     # ------------------------------------------------------------------ finish
+    def settle_opaque(self):
+        """a violation located in a file in which (or below which, on the call stack) the engine
+        met a construct it cannot model is not a verdict: it becomes 'not decided'"""
+        import sa.interp as _ip
+        entries = sorted(set(_ip.OPAQUE))
+        if not entries:
+            return
+        for o in self.obligations:
+            if o["status"] != "violation":
+                continue
+            f = (o["loc"] or "").split(":")[0]
+            hit = [e for e in entries if f and f in e[3]]
+            if hit:
+                e = hit[0]
+                o["status"] = "undecided"
+                o["detail"] = (f"NOT DECIDED - {e[0]} uses a construct the analysis does not model "
+                               f"({e[1]} at {e[2]}); derived: {o['detail']}")
+
     def finish(self, replay=None, write=True):
+        self.settle_opaque()
         if self.floor_misses and not any(o["status"] == "violation" for o in self.obligations):
             # a rule that matched fewer sites than confirmed by hand and reported nothing: never a
             # silent pass.  With nothing analysed at all the run is broken (exit 2); otherwise the
